@@ -20,7 +20,7 @@ RULE = ("(a) the full grid statistic(14) x shapes with 1..4 axes and lengths 0..
         "duplicate / empty / unknown sample lists, sample files with odd lines, projection bounds; mutated VCF, BGZF "
         "and BCF bytes (bit flips, truncations, splices - fuzz-style support only: noodles is not modelled). Every "
         "run must exit 0 or non-zero with a diagnostic on stderr; exit 101 / 'panicked at' / a signal is a failure. "
-        "non-trivial = a degenerate shape, an out-of-bounds option or a mutated input; text headers with non-ASCII numeric characters of 2-4 bytes before, inside and after the shape")
+        "non-trivial = a degenerate shape, an out-of-bounds option or a mutated input; text headers with non-ASCII numeric characters of 2-4 bytes before, inside and after the shape; npy files without any axis ('shape': ()) and with all axes of length one through every statistic")
 
 
 def fmt(l):
@@ -173,6 +173,19 @@ def check(rep, tier, seed):
             else:
                 src[k:k] = bytes(rng.randrange(256) for _ in range(rng.randrange(1, 9)))
         inputs.append(bytes(src))
+    # npy files of degenerate shape - no axis at all ('shape': (), which numpy writes for a scalar) with zero, one or two
+    # values, one entry, all axes of length one - through EVERY statistic (the diagnostic of a shape error prints the shape)
+    for shp_txt, nvals in (("()", 1), ("()", 0), ("()", 2), ("(,)", 1), ("(1,)", 1), ("(1, 1)", 1), ("(1, 1, 1)", 1), ("(2,)", 2), ("(1, 2)", 2), ("(2, 1, 1, 1)", 2), ("(3, 3)", 9)):
+        for major in (1, 2):
+            dct = ("{'descr': '<f8', 'fortran_order': False, 'shape': %s, }" % shp_txt).encode()
+            lw = 2 if major == 1 else 4
+            hdr = dct + b" " * ((-(6 + 2 + lw + len(dct) + 1)) % 64) + b"\n"
+            data = b"\x93NUMPY" + bytes([major, 0]) + (_st.pack("<H", len(hdr)) if major == 1 else _st.pack("<I", len(hdr))) + hdr + _st.pack("<%dd" % nvals, *[float(k + 1) for k in range(nvals)])
+            for st in STATS:
+                jobs.append((["stat", "-s", st], data, "degenerate-npy"))
+            jobs.append((["stat", "-s", ",".join(STATS)], data, "degenerate-npy"))
+            for argv in (["view"], ["fold"], ["view", "-m", "0"], ["view", "-M", "0"], ["view", "--project-shape", "1"], ["view", "--mask-monomorphic", "-n"], ["view", "-O", "npy"]):
+                jobs.append((argv, data, "degenerate-npy"))
     for data in inputs:
         jobs.append((["view"], data, "input"))
         jobs.append((["fold"], data, "input"))
